@@ -49,25 +49,30 @@ func Probe(r *rt.Run) error {
 		}
 		return ps
 	}
-	for _, fn := range []string{"count", "sum", "mean", "median", "mode", "spread", "stddev", "first", "last", "min", "max"} {
-		for _, upt := range []bool{false, true} {
-			show(Cfg{Fn: fn, UPT: upt}, Batch{"a", 10, pts("int", 3, -1, 3)}, Batch{"a", 20, nil}, Batch{"a", 30, pts("float", 2)})
+	_ = pts
+	tp := func(k string, shapes string, vs ...int) []Pt {
+		var ps []Pt
+		for i, v := range vs {
+			p := Pt{T: 1 + i, K: k, V: v, H: "-", R: "-", I: i + 1}
+			switch shapes[i] {
+			case 'f': // group + h
+				p.H = "p"
+			case 'h': // own tag only
+				p.H, p.NoG = "q", true
+			case 'e': // no tags at all
+				p.NoG = true
+			case 'm': // two own tags, no group tag
+				p.H, p.R, p.NoG = "p", "z", true
+			case 'g': // group tags only
+			}
+			ps = append(ps, p)
+		}
+		return ps
+	}
+	for _, g := range []string{"a", "dd"} {
+		for _, c := range []Cfg{{Fn: "top", Arg: 5}, {Fn: "bottom", Arg: 5, Tags: true}, {Fn: "min"}, {Fn: "first", UPT: true}, {Fn: "percentile", Arg: 50}, {Fn: "sum"}, {Fn: "distinct"}, {Fn: "cumulativeSum"}} {
+			show(c, Batch{G: g, Tmax: 10, Pts: tp("int", "fhemg", 3, 1, 4, 2, 5)}, Batch{G: g, Tmax: 20, Pts: tp("int", "h", 1)}, Batch{G: g, Tmax: 30, Pts: tp("int", "e", 1)})
 		}
 	}
-	show(Cfg{Fn: "percentile", Arg: 50, As: "y"}, Batch{"a", 10, pts("int", 3, -1, 2, 0)}, Batch{"a", 20, pts("int", 3)})
-	show(Cfg{Fn: "percentile", Arg: 0}, Batch{"a", 10, pts("int", 3, -1, 2, 0)})
-	show(Cfg{Fn: "distinct", UPT: true}, Batch{"a", 10, pts("int", 3, -1, 3, 0)})
-	show(Cfg{Fn: "top", Arg: 2, UPT: true}, Batch{"a", 10, pts("int", 3, -1, 3, 0)})
-	show(Cfg{Fn: "top", Arg: 2, Tags: true}, Batch{"a", 10, pts("int", 3, -1, 3, 0)})
-	show(Cfg{Fn: "bottom", Arg: 2}, Batch{"a", 10, pts("float", 3, -1, 3, -1)}, Batch{"a", 20, nil})
-	show(Cfg{Fn: "elapsed", Arg: 2}, Batch{"a", 10, pts("float", 3, -1, 3, -1)}, Batch{"a", 20, nil})
-	show(Cfg{Fn: "difference"}, Batch{"a", 10, pts("float", 3, -1, 3, -1)}, Batch{"a", 20, pts("int", 3, -1)})
-	show(Cfg{Fn: "cumulativeSum", As: "y"}, Batch{"a", 10, pts("float", 3, -1, 3, -1)}, Batch{"a", 20, pts("int", 3, -1)})
-	show(Cfg{Fn: "movingAverage", Arg: 2}, Batch{"a", 10, pts("int", 3, -1, 2, -1)}, Batch{"a", 20, pts("int", 3, -1)})
-	// stale creator cache
-	show(Cfg{Fn: "mean"}, Batch{"a", 10, pts("float", 3)}, Batch{"a", 20, pts("str", 1, 2)}, Batch{"a", 30, pts("float", 2)})
-	show(Cfg{Fn: "mean"}, Batch{"a", 20, pts("str", 1, 2)}, Batch{"a", 30, pts("float", 2)})
-	show(Cfg{Fn: "min"}, Batch{"a", 10, pts("float", 3)}, Batch{"a", 20, pts("str", 1, 2)}, Batch{"a", 30, pts("float", 2)})
-	show(Cfg{Fn: "min"}, Batch{"a", 20, pts("str", 1, 2)}, Batch{"a", 30, pts("float", 2)})
 	return nil
 }
